@@ -551,9 +551,13 @@ func tagPrograms() []*Program {
 		// a running step is stopped by a producer and must be force-closed; consumers use wait-optional on its outputs
 		{Name: "stopforce", Steps: []Step{
 			pstep("p", O("v", E("$.input.n"))),
-			{ID: "a", Input: O("v", I(1)), StopIf: E("$.steps.p.outputs.success"), ClosureMS: I(0)},
-			{ID: "b", Input: O("v", I(2)), StopIf: E("$.steps.p.outputs.success"), ClosureMS: I(50)}},
-			Outputs: []Output{{"done", O("t", E(sv("p")), "w", Opt{true, sv("a")}, "x", Opt{true, sv("b")})}}},
+			{ID: "a", Input: O("v", I(1)), StopIf: E("$.steps.p.outputs.success"), ClosureMS: I(0)}},
+			Outputs: []Output{{"done", O("t", E(sv("p")), "w", Opt{true, sv("a")})}}},
+		{Name: "stopforce2", Steps: []Step{
+			pstep("p", O("v", E("$.input.n"))),
+			{ID: "a", Input: O("v", I(1)), StopIf: E("$.steps.p.outputs.success"), ClosureMS: I(50)},
+			{ID: "c", Input: O("v", I(3), "s", Opt{true, ss("a")})}},
+			Outputs: []Output{{"done", O("t", E(sv("p")), "q", E(sv("c")))}}},
 		{Name: "optinwaitfor", Steps: []Step{
 			pstep("a", O("v", E("$.input.n"))),
 			{ID: "c", Input: O("v", I(2)), WaitFor: O("x", Opt{true, "$.steps.a.outputs.success"})}},
